@@ -87,6 +87,9 @@ func (bucket *Bucket) _closeSqliteDB() {
 
 // Closes a bucket and deletes its directory and files (unless it's in-memory.)
 func (bucket *Bucket) CloseAndDelete(ctx context.Context) (err error) {
+	// The expiry timer's callback takes the expiry manager's lock and then the bucket's, so the timer has to be stopped
+	// (which waits for a callback in flight) before the bucket's lock is taken, never while it is held.
+	bucket.expManager.stop()
 	bucket.mutex.Lock()
 	defer bucket.mutex.Unlock()
 	bucket._closeSqliteDB()
